@@ -411,7 +411,7 @@ def main(argv):
         return 1
     if harness_errors:
         for h in harness_errors[:5]:
-            print("HARNESS-ERROR", h[-3000:])
+            print("HARNESS-ERROR", h[-3000:].replace("\n", " | "))
         return 2
     return 0
 
